@@ -451,6 +451,8 @@ class vCategory:
 
     @staticmethod
     def from_ical(ical):
+        if isinstance(ical, vCategory):
+            return [str(c) for c in ical.cats]
         ical = to_unicode(ical)
         out = unescape_char(ical).split(',')
         return out
@@ -953,6 +955,8 @@ class vPeriod(TimeBase):
 
     @staticmethod
     def from_ical(ical, timezone=None):
+        if isinstance(ical, vPeriod):
+            return ical.dt
         try:
             start, end_or_duration = ical.split('/')
             start = vDDDTypes.from_ical(start, timezone=timezone)
@@ -1597,6 +1601,8 @@ class vGeo:
 
     @staticmethod
     def from_ical(ical):
+        if isinstance(ical, vGeo):
+            return (ical.latitude, ical.longitude)
         try:
             latitude, longitude = ical.split(";")
             return (float(latitude), float(longitude))
